@@ -494,8 +494,8 @@ func (p vfE7Producer) json(sb *strings.Builder, cl *vfE7VCluster) {
 		return
 	}
 	_, port, _ := net.SplitHostPort(cl.addrOf(p.Sym))
-	fmt.Fprintf(sb, `{"remote_address":%s,"hostname":%s,"broadcast_address":"127.0.0.1","tcp_port":%d,"http_port":%s,"version":%s,"topics":[`,
-		vfE7J(p.Remote), vfE7J(p.Hostname), p.TCPPort, port, vfE7J(p.Version))
+	fmt.Fprintf(sb, `{"remote_address":%s,"hostname":%s,"broadcast_address":%s,"tcp_port":%d,"http_port":%s,"version":%s,"topics":[`,
+		vfE7J(p.Remote), vfE7J(p.Hostname), vfE7J(cl.ip), p.TCPPort, port, vfE7J(p.Version))
 	for i, t := range p.Topics {
 		if i > 0 {
 			sb.WriteString(",")
@@ -525,6 +525,11 @@ type vfE7VCluster struct {
 	srv   map[string]*httptest.Server
 	addr  map[string]string // symbol → host:port
 	sym   map[string]string
+	// ip: the loopback IP of every stub of this cluster, private to this process (vfLoopback) — not 127.0.0.1, so that a
+	// client of another check running in parallel can never reach a stub and nsqadmin never reaches a foreign daemon. One IP
+	// for the whole cluster: nsqadmin builds addresses from broadcast_address + http_port / https_port, and the model names the
+	// host "127.0.0.1" (Nsqd.host): symbolise maps the IP back to that name.
+	ip string
 }
 
 func (c *vfE7VCluster) addrOf(sym string) string {
@@ -537,6 +542,33 @@ func (c *vfE7VCluster) addrOf(sym string) string {
 func (c *vfE7VCluster) symbolise(s string) string {
 	for a, sym := range c.sym {
 		s = strings.ReplaceAll(s, a, sym)
+	}
+	if c.ip != "" { // (a cluster value without stubs, as the Add tests build it, has no IP)
+		s = strings.ReplaceAll(s, c.ip, "127.0.0.1")
+	}
+	return s
+}
+
+// host: a host name as the model knows it — nsqadmin falls back to the host part of the configured address where a node
+// reports no hostname / broadcast address, and that is the cluster's private IP here, "127.0.0.1" in the model.
+func (c *vfE7VCluster) host(h string) string {
+	if c.ip != "" && h == c.ip {
+		return "127.0.0.1"
+	}
+	return h
+}
+
+// newSrv: an httptest server (plain or TLS) on the cluster's private IP, port chosen by the kernel.
+func (c *vfE7VCluster) newSrv(h http.Handler, viaTLS bool) *httptest.Server {
+	ln, err := net.Listen("tcp", c.ip+":0")
+	if err != nil {
+		panic(err)
+	}
+	s := &httptest.Server{Listener: ln, Config: &http.Server{Handler: h}}
+	if viaTLS {
+		s.StartTLS()
+	} else {
+		s.Start()
 	}
 	return s
 }
@@ -712,8 +744,8 @@ func (c *vfE7VCluster) serve(sym string, viaTLS bool) http.Handler {
 				if n.NoBcast {
 					fmt.Fprintf(&sb, `{"version":%s,"hostname":%s,"tcp_port":%d,"start_time":1}`, vfE7J(n.Version), vfE7J(n.Hostname), n.TCPPort)
 				} else {
-					fmt.Fprintf(&sb, `{"version":%s,"broadcast_address":"127.0.0.1","hostname":%s,"http_port":%s,"tcp_port":%d,"start_time":1}`,
-						vfE7J(n.Version), vfE7J(n.Hostname), port, n.TCPPort)
+					fmt.Fprintf(&sb, `{"version":%s,"broadcast_address":%s,"hostname":%s,"http_port":%s,"tcp_port":%d,"start_time":1}`,
+						vfE7J(n.Version), vfE7J(c.ip), vfE7J(n.Hostname), port, n.TCPPort)
 				}
 			case "/stats":
 				f := n.StatsFail
@@ -752,12 +784,12 @@ func (c *vfE7VCluster) serve(sym string, viaTLS bool) http.Handler {
 
 func vfE7NewVCluster(nl, nn int) *vfE7VCluster {
 	c := &vfE7VCluster{srv: map[string]*httptest.Server{}, addr: map[string]string{"X0": vfE7Dead}, sym: map[string]string{vfE7Dead: "X0"},
-		tlsSrv: map[string]*httptest.Server{}, tlsAddr: map[string]string{}, hangOff: os.Getenv("VERIF_HANG_OFF") != ""}
+		tlsSrv: map[string]*httptest.Server{}, tlsAddr: map[string]string{}, hangOff: os.Getenv("VERIF_HANG_OFF") != "", ip: vfLoopback()}
 	mk := func(sym string) {
-		s := httptest.NewServer(c.serve(sym, false))
+		s := c.newSrv(c.serve(sym, false), false)
 		a := strings.TrimPrefix(s.URL, "http://")
 		c.srv[sym], c.addr[sym], c.sym[a] = s, a, sym
-		ts := httptest.NewTLSServer(c.serve(sym, true))
+		ts := c.newSrv(c.serve(sym, true), true)
 		ts.Config.ErrorLog = log.New(io.Discard, "", 0)
 		c.tlsSrv[sym], c.tlsAddr[sym] = ts, strings.TrimPrefix(ts.URL, "https://")
 	}
@@ -896,7 +928,7 @@ func (cl *vfE7VCluster) render(kind string, status int, body []byte) string {
 		}
 		var ns, chs []string
 		for _, n := range t.Nodes {
-			ns = append(ns, vfE7S(cl.symbolise(n.Node))+"/"+vfE7S(n.Hostname)+"/"+n.cs()+"/"+vfE7B(n.Paused))
+			ns = append(ns, vfE7S(cl.symbolise(n.Node))+"/"+vfE7S(cl.host(n.Hostname))+"/"+n.cs()+"/"+vfE7B(n.Paused))
 		}
 		for _, c := range t.Channels {
 			// (the merged entry is the first node's own object: its node list misses that node, whichever came first)
@@ -912,7 +944,7 @@ func (cl *vfE7VCluster) render(kind string, status int, body []byte) string {
 		}
 		var nn []string
 		for _, n := range c.Nodes {
-			nn = append(nn, vfE7S(cl.symbolise(n.Node))+"~"+vfE7S(n.Hostname)+"~"+n.cs()+"~"+vfE7B(n.Paused))
+			nn = append(nn, vfE7S(cl.symbolise(n.Node))+"~"+vfE7S(cl.host(n.Hostname))+"~"+n.cs()+"~"+vfE7B(n.Paused))
 		}
 		return fmt.Sprintf("200 %s C/%s/%s/%s/%s/%s/%s/%s", warn(c.Message), vfE7S(c.ChannelName), vfE7S(cl.symbolise(c.Node)),
 			vfE7S(c.TopicName), c.cs(), vfE7B(c.Paused), cl.clientsStr(c.Clients), vfE7JoinSorted(nn, "+"))
@@ -945,8 +977,8 @@ func (cl *vfE7VCluster) render(kind string, status int, body []byte) string {
 			for _, t := range p.Topics {
 				ts = append(ts, vfE7S(t.Topic)+"~"+vfE7B(t.Tombstoned))
 			}
-			ps = append(ps, fmt.Sprintf("%s/%s/%s:%d/%s/%s/%s/%s", vfE7S(p.Hostname),
-				cl.symbolise(net.JoinHostPort(p.BroadcastAddress, strconv.Itoa(p.HTTPPort))), p.BroadcastAddress, p.TCPPort,
+			ps = append(ps, fmt.Sprintf("%s/%s/%s:%d/%s/%s/%s/%s", vfE7S(cl.host(p.Hostname)),
+				cl.symbolise(net.JoinHostPort(p.BroadcastAddress, strconv.Itoa(p.HTTPPort))), cl.symbolise(p.BroadcastAddress), p.TCPPort,
 				vfE7S(p.Version), vfE7B(p.OutOfDate), vfE7JoinSorted(ra, "+"), vfE7JoinSorted(ts, "+")))
 		}
 		return fmt.Sprintf("200 %s P[%s]", warn(d.Message), vfE7JoinSorted(ps, ";"))
@@ -1009,7 +1041,7 @@ type vfE7VEnv struct {
 func vfE7VSetup(t *testing.T, name string) *vfE7VEnv {
 	e := &vfE7VEnv{t: t, cl: vfE7NewVCluster(3, 4), hist: map[string]int{}, skip: vfEnvInt("VERIF_SKIP", 0)}
 	opts := NewOptions()
-	opts.HTTPAddress = "127.0.0.1:0"
+	opts.HTTPAddress = vfLoopAddr()
 	opts.NSQLookupdHTTPAddresses = []string{e.cl.addr["L0"]}
 	opts.Logger = vfE7NullLogger{}
 	opts.LogLevel = lg.FATAL
